@@ -139,7 +139,7 @@ func (w *world) exec(o op) (Class, error) {
 			ctx0 := w.ctx
 			w.ctx = ctx
 			w.enabled = append([]bool(nil), o.En...)
-			w.allowed = append([]bool(nil), o.Al...)
+			w.allowed = padBools(o.Al)
 			w.setParams()
 			w.ctx = ctx0
 			return nil
@@ -298,8 +298,22 @@ func (g *gen) next() op {
 				o.D = g.denomOf(held)
 			}
 		}
+		if r.Chance(1, 6) {
+			// a bank denom that only looks like a pair denom (case / prefix / suffix variant),
+			// preferably of an enabled pair whose tokens are already locked in the module
+			c := r.Intn(nPair)
+			for k := 0; k < nPair; k++ {
+				if w.enabled[k] && s.erc[k][accM].Sign() > 0 && r.Chance(2, 3) {
+					c = k
+				}
+			}
+			o.D = g.denomOf(lookalikes[pairDenom[c]])
+		}
 		o.I = g.holder(func(a int) *big.Int { return s.bal[a][o.D] })
 		o.R = g.anyAcc()
+		if o.D >= firstLook && r.Chance(3, 4) {
+			o.R = g.user()
+		}
 		o.X = g.amount(s.bal[o.I][o.D], big.NewInt(1), !o.Direct).String()
 		return o
 	case 1: // ERC20 -> coin (EVM-native pair)
@@ -354,6 +368,18 @@ func (g *gen) next() op {
 				o.D = g.denomOf(al)
 			}
 		}
+		if r.Chance(1, 8) {
+			// a look-alike of a denom on the allow list
+			var al []int
+			for d := 0; d < nRealDen; d++ {
+				if w.allowed[d] && len(lookalikes[d]) > 0 {
+					al = append(al, d)
+				}
+			}
+			if len(al) > 0 {
+				o.D = g.denomOf(lookalikes[g.denomOf(al)])
+			}
+		}
 		o.I = g.holder(func(a int) *big.Int { return s.bal[a][o.D] })
 		o.R = g.anyAcc()
 		o.X = g.amount(s.bal[o.I][o.D], big.NewInt(1), !o.Direct).String()
@@ -371,8 +397,22 @@ func (g *gen) next() op {
 		} else {
 			o.D = g.denomOf([]int{3, 4, 5, 6})
 		}
+		look := -1
+		if len(regd) > 0 && r.Chance(1, 12) {
+			// a look-alike of a denom with a wrapper: amounts taken from the real wrapper's balances
+			look = g.denomOf(regd)
+			if len(lookalikes[look]) > 0 {
+				o.D = g.denomOf(lookalikes[look])
+			} else {
+				look = -1
+			}
+		}
 		bal := func(a int) *big.Int {
-			if c := s.reg[o.D]; c >= 0 {
+			d := o.D
+			if look >= 0 {
+				d = look
+			}
+			if c := s.reg[d]; c >= 0 {
 				return s.erc[c][a]
 			}
 			return big.NewInt(0)
@@ -431,6 +471,9 @@ func (g *gen) next() op {
 	case 6: // bank MsgSend
 		o := op{Kind: "send"}
 		o.D = r.Intn(nDenom)
+		if o.D >= firstLook && r.Chance(1, 2) {
+			o.D = r.Intn(nRealDen)
+		}
 		o.I = g.holder(func(a int) *big.Int { return s.bal[a][o.D] })
 		o.R = g.anyAcc()
 		if o.R >= nUsers && r.Chance(1, 2) {
